@@ -302,7 +302,7 @@ def _oracle_life(fw, cfg, ops, trace, res, last, glob, offset):
         for e in evs:
             if e[0] == "reenter":
                 reent = True
-            if e[0] == "sent" and e[1][0] in c04.REQUEST_MSGS:
+            if e[0] in ("sent", "dropped") and e[1][0] in c04.REQUEST_MSGS:     # dropped: accepted by a closing transport
                 last_req = e[1]
             if e[0] == "apiret" and e[1] is not None and last_req is None:
                 how.setdefault(e[1], "no-request")
